@@ -35,12 +35,12 @@ var idxRe = regexp.MustCompile(`\[[^\]]*\]`)
 
 type raceRun struct {
 	histories, calls, maxg, diffs, mutated, nondet int
-	kinds                                        map[string]int
-	schemas                                      []string
-	races                                        []string // signatures
-	raceSample                                   map[string]string
-	selftest                                     string
-	out, errOut                                  string
+	kinds                                          map[string]int
+	schemas                                        []string
+	races                                          []string // signatures
+	raceSample                                     map[string]string
+	selftest                                       string
+	out, errOut                                    string
 }
 
 // topFrames extracts, from one race report, the first frame inside the library of each of the two
